@@ -211,7 +211,7 @@ func (g *gen) schema(o schemaOpts) *gSchema {
 				}
 			}
 		}
-		if o.fks && g.rng.Intn(3) == 0 {
+		if o.fks && g.rng.Intn(2) == 0 {
 			if fk, ok := g.newFk(s, t); ok {
 				t.Fks = append(t.Fks, fk)
 			}
@@ -400,6 +400,23 @@ func (g *gen) mutate(s *gSchema, o mutateOpts, c *ctx) *gSchema {
 				t.Fks = append(t.Fks, fk)
 				c.count("edit_add_fk")
 			}
+		case k < 13 && o.fks && len(t.Fks) > 0 && len(t.Cols) > 1: // drop a column together with the foreign key on it
+			cn := t.Fks[g.rng.Intn(len(t.Fks))].Col
+			isPk := false
+			for _, cc := range t.Cols {
+				if cc.Name == cn {
+					for _, op := range cc.Opts {
+						if op.Kind == "pk" {
+							isPk = true
+						}
+					}
+				}
+			}
+			if isPk || n.referenced(t.Name, cn) {
+				continue
+			}
+			dropColumnFromTable(t, cn)
+			c.count("edit_drop_fk_column")
 		case k < 13 && o.dropTables: // drop table
 			if n.referenced(t.Name, "") {
 				continue
